@@ -30,6 +30,10 @@ class MaxOptimizer(AffineOptimizer):
         dim = list(range(1, base.ndim)) if (axis == 0) else list(range(0, base.ndim - 1))
         rmin = torch.amin(base, dim=dim, keepdim=True)
         rmax = torch.amax(base, dim=dim, keepdim=True)
+        # The quantization range must contain zero: otherwise the zeropoint of a range located
+        # far from zero does not fit in int8 (and a constant range has a null scale)
+        rmin = torch.clamp(rmin, max=0)
+        rmax = torch.clamp(rmax, min=0)
         qmin = -(2 ** (bits - 1))
         qmax = 2 ** (bits - 1) - 1
         scale = (rmax - rmin) / (qmax - qmin)
